@@ -5,6 +5,11 @@ open ArmiVerif ArmiVerif.Proto ArmiVerif.Schedule ArmiVerif.SnapStore
 structure DS where
   db : Option Store := none
   cur : Snap := { cycle := 0, node := 0, objs := [] }
+  pst : PState := { assigned := [], live := [], cycle := 0, node := 0 }
+  pgroups : List PSnap := []
+  pdflt : List (Nat × Int) := []
+
+def dfltOf (st : DS) (p : Nat) : Int := (st.pdflt.lookup p).getD 0
 
 def parseOptInt? (s : String) : Option (Option Int) :=
   if s = "_" then some none else (parseInt? s).map some
@@ -44,23 +49,79 @@ def parseIface? (s : String) : Option Iface := do
   | _ => none
 
 def parseCfg? : List String → Option Config
-  | [nC, bs, sc, sn, stack, dfr, dc, cp, mi, skip, db, halt, conv, _bolset] => do
+  | [nC, bs, sc, sn, stack, dfr, dc, cp, mi, skip, db, halt, conv, bolset] => do
     let halt ← parsePairs? halt
     let conv ← parseQuads? conv
+    let bolSet ← (if bolset = "_" then some none
+      else (parseNatList? bolset).bind (fun l => match l with | [a, b, c] => some (some (a, b, c)) | _ => none))
     some { nCycles := ← parseNat? nC, burnSteps := ← parseNatList? bs, startCycle := ← parseNat? sc,
            startNode := ← parseNat? sn, stack := ← parseList? parseIface? stack,
            deferredNames := ← parseNatList? dfr, deferredCycle := ← parseNat? dc,
            couplingOn := ← parseBool? cp, maxIters := ← parseNat? mi, skipCycles := ← parseNatList? skip,
            dbName := ← parseNat? db,
-           halt := fun i c => halt.contains (i, c), conv := fun i c n it => conv.contains (i, c, n, it) }
+           halt := fun i c => halt.contains (i, c), conv := fun i c n it => conv.contains (i, c, n, it), bolSet := bolSet }
   | _ => none
 
 /-- the followed state: number of hook calls of interface `f` among calls 0..i -/
 def faultState (cfg : Config) (f : Nat) (i : Nat) : Objs :=
   [(0, some (((run cfg).take (i + 1)).filter (fun e => e.iface == f)).length)]
 
+/-- the followed state when a stamping interface sets it to `off + 100 * cycle + node` at every node -/
+def stampState (cfg : Config) (off : Int) (i : Nat) : Objs :=
+  match (run cfg)[i]? with
+  | some e => [(0, some (off + 100 * (e.rc : Int) + (e.rn : Int)))]
+  | none => []
+
+def parseDflt? (s : String) : Option (List (Nat × Int)) := do
+  (← parseList? parseIntList? s).mapM (fun l => match l with
+    | [a, b] => if a < 0 then none else some (a.toNat, b)
+    | _ => none)
+
+/-- the histories of the requested parameters, in request order (a `dict`'s own order is not compared) -/
+def showHist (params : List Nat) (h : Hist) : String :=
+  ";".intercalate ((params.eraseDups.filterMap (fun p => (h.lookup p).map (fun d => (p, d)))).map (fun e =>
+    toString e.1 ++ ":" ++ showList (fun x => showPairN x.1 ++ ":" ++ toString x.2) e.2))
+
 def step (st : DS) : List String → DS × String
   | ["reset"] => ({}, "ok")
+  | ["preset", dflt] => match parseDflt? dflt with
+    | some d => ({ st with pst := { assigned := [], live := [], cycle := 0, node := 0 }, pgroups := [], pdflt := d }, "ok")
+    | none => (st, "bad-op")
+  | ["ptime", c, n] => match parseNat? c, parseNat? n with
+    | some c, some n => ({ st with pst := { st.pst with cycle := c, node := n } }, "ok")
+    | _, _ => (st, "bad-op")
+  | ["passign", sn, p, v] => match parseNat? sn, parseNat? p, parseInt? v with
+    | some sn, some p, some v => ({ st with pst := st.pst.assign sn p v }, "ok")
+    | _, _, _ => (st, "bad-op")
+  | ["pwrite", layout] => match parseNatList? layout with
+    | some l =>
+      if st.pgroups.any (fun g => (g.cycle, g.node) == (st.pst.cycle, st.pst.node)) then (st, "reject")
+      else ({ st with pgroups := st.pgroups ++ [writeP st.pst (dfltOf st) l] }, "ok")
+    | none => (st, "bad-op")
+  | ["pstored", c, n] => match parseNat? c, parseNat? n with
+    | some c, some n => (st, match st.pgroups.find? (fun g => (g.cycle, g.node) == (c, n)) with
+      | some g => showList toString ((g.data.map (·.1)).mergeSort) | none => "reject")
+    | _, _ => (st, "bad-op")
+  | ["pdb", sn, params, steps] => match parseNat? sn, parseNatList? params, parsePairs? steps with
+    | some sn, some ps, some steps =>
+      (st, match dbHistory st.pgroups st.pst (dfltOf st) sn ps steps with | some h => showHist ps h | none => "reject")
+    | _, _, _ => (st, "bad-op")
+  | ["pdbi", sn, params, steps] => match parseNat? sn, parseNatList? params, parsePairs? steps with
+    | some sn, some ps, some steps =>
+      (st, match dbiHistory st.pgroups st.pst (dfltOf st) sn ps steps with | some h => showHist ps h | none => "reject")
+    | _, _, _ => (st, "bad-op")
+  | ["pdball", sn, params] => match parseNat? sn, parseNatList? params with
+    | some sn, some ps =>
+      (st, match dbHistoryAll st.pgroups st.pst (dfltOf st) sn ps with | some h => showHist ps h | none => "reject")
+    | _, _ => (st, "bad-op")
+  | ["pdbiall", sn, params] => match parseNat? sn, parseNatList? params with
+    | some sn, some ps =>
+      (st, match dbiHistoryAll st.pgroups st.pst (dfltOf st) sn ps with | some h => showHist ps h | none => "reject")
+    | _, _ => (st, "bad-op")
+  | ["pblock", sn, p, c, n] => match parseNat? sn, parseNat? p, parseNat? c, parseNat? n with
+    | some sn, some p, some c, some n =>
+      (st, match blockHistoryVal st.pgroups st.pst (dfltOf st) sn p (c, n) with | some v => toString v | none => "reject")
+    | _, _, _, _ => (st, "bad-op")
   | ["open"] => ({ st with db := some openW }, "ok")
   | ["set", c, n, objs] => match parseNat? c, parseNat? n, parseObjs? objs with
     | some c, some n, some o => ({ st with cur := { cycle := c, node := n, objs := o } }, "ok")
@@ -99,14 +160,26 @@ def step (st : DS) : List String → DS × String
     | some db => (st, showStore db) | none => (st, "none")
   | "crash" :: opener :: f :: n :: cfgArgs => match parseNat? opener, parseNat? f, parseNat? n, parseCfg? cfgArgs with
     | some op, some f, some n, some cfg =>
-      let d : DbCfg := ⟨cfg, op, faultState cfg f⟩
+      let d : DbCfg := { cfg := cfg, opener := op, stateAt := faultState cfg f }
       (st, match fileAfterCrash d n with | none => "none" | some s => showStore s)
     | _, _, _, _ => (st, "bad-op")
   | "complete" :: opener :: f :: cfgArgs => match parseNat? opener, parseNat? f, parseCfg? cfgArgs with
     | some op, some f, some cfg =>
-      let d : DbCfg := ⟨cfg, op, faultState cfg f⟩
+      let d : DbCfg := { cfg := cfg, opener := op, stateAt := faultState cfg f }
       (st, match fileAfterRun d with | none => "none" | some s => showStore s)
     | _, _, _ => (st, "bad-op")
+  | "restart" :: off1 :: off2 :: sc :: sn :: opener :: rest =>
+    -- a completed first run (stamp offset off1), then the same case restarted from its file at (sc, sn) (offset off2)
+    match parseInt? off1, parseInt? off2, parseNat? sc, parseNat? sn, parseNat? opener,
+      parseCfg? (rest.take 14), parseCfg? (rest.drop 14) with
+    | some off1, some off2, some sc, some sn, some op, some cfg1, some cfg2 =>
+      let d1 : DbCfg := { cfg := cfg1, opener := op, stateAt := stampState cfg1 off1 }
+      match fileAfterRun d1 with
+      | none => (st, "none")
+      | some src =>
+        let d2 : DbCfg := { cfg := cfg2, opener := op, stateAt := stampState cfg2 off2, opened := restartStore src sc sn }
+        (st, match fileAfterRun d2 with | none => "none" | some s => showStore s)
+    | _, _, _, _, _, _, _ => (st, "bad-op")
   | ["name", c, n, l] => match parseNat? c, parseNat? n with
     | some c, some n => (st, showName ⟨c, n, lab l⟩) | _, _ => (st, "bad-op")
   | _ => (st, "bad-op")
